@@ -20,11 +20,12 @@ TIERS = {
 }
 FAULT_KINDS = []
 PROBES = ["unset_strict", "unset_nonstrict", "secret_planted_and_unset_read", "quoted_reserved_name", "digit_initial_name", "non_ascii_value",
-          "newline_value", "empty_value", "field_named_env", "let_env", "read_in_library", "empty_environment", "var_named_env"]
+          "newline_value", "empty_value", "field_named_env", "let_env", "read_in_library", "empty_environment", "var_named_env",
+          "env_passed_as_value", "tiny_environment"]
 PROBES_OPTIONAL = False
 RESERVED = ["let", "import", "self", "mod", "out", "assert", "true", "false", "NULL", "select", "func", "module", "map", "filter", "reduce",
             "include", "fail", "not", "in", "is", "as", "env", "convert", "constraint", "TRACE"]
-POSITIONS = ["top", "func", "module", "quoted", "lib", "format", "tuple_value", "list_value"]
+POSITIONS = ["top", "func", "module", "quoted", "lib", "format", "tuple_value", "list_value", "func_arg", "module_arg", "tuple_holding_env"]
 VALUE_CLASSES = ["ascii", "empty", "blanks", "dquote", "squote", "dollar", "backquote", "backslash", "newline", "tab", "bmp", "astral",
                  "combining", "rtl", "long", "equals", "jsonish", "percent_at"]
 
@@ -147,6 +148,10 @@ def generate(rng, tier, idx):
     for r in reads:
         if needs_quote(r["name"]) and r["pos"] not in ("quoted",):
             r["pos"] = "quoted"
+    # a direct read after env was handed around as a value (two cooperating sites)
+    if any(r["pos"] in ("func_arg", "module_arg", "tuple_holding_env") for r in reads) and readable:
+        e = rng.choice(readable)
+        reads.append({"name": e["name"], "set": True, "pos": "quoted" if needs_quote(e["name"]) else "top"})
     return {"env": env, "strict": strict, "reads": reads, "fields": rng.chance(40), "let_env": rng.chance(20),
             "field_uid": "fld" + rng.token(8)}
 
@@ -175,6 +180,12 @@ def render_programs(world):
             L.append("let v%d = lib.v%d;" % (i, i))
         elif pos == "format":
             L.append('let v%d = "@" %% (idf(%s));' % (i, s))
+        elif pos == "func_arg":      # env handed to a function as a value
+            L.append("let g%d = func (e) => e.%s;\nlet v%d = g%d(env);" % (i, r["name"], i, i))
+        elif pos == "module_arg":
+            L.append("let m%d = module {e = env} => { let r = mod.e.%s; };\nlet v%d = m%d{}.r;" % (i, r["name"], i, i))
+        elif pos == "tuple_holding_env":
+            L.append("let h%d = {e = env};\nlet v%d = h%d.e.%s;" % (i, i, i, r["name"]))
         elif pos == "tuple_value":
             L.append("let v%d = {k = %s}.k;" % (i, s))
         elif pos == "list_value":
@@ -227,6 +238,10 @@ def execute(world, sb, res):
         res.probe("empty_environment")
     if "env" in envmap:
         res.probe("var_named_env")
+    if any(r["pos"] in ("func_arg", "module_arg", "tuple_holding_env") for r in world["reads"]):
+        res.probe("env_passed_as_value")
+    if len(envmap) + 1 <= 3:   # + HOME
+        res.probe("tiny_environment")
     unset = [r for r in world["reads"] if not r["set"]]
     # lib reads are evaluated at the import, i.e. before everything else
     order = [r for r in world["reads"] if r["pos"] == "lib"] + [r for r in world["reads"] if r["pos"] != "lib"]
